@@ -506,6 +506,8 @@ def plan_xo(pid, tr, sd):
                 ms.append("union")
             for k, mis in enumerate(ms):
                 jobs.append((pid, "c11", label, t, gens[0], dict(pls[(i + k) % 2], misuse=mis)))
+            if has_kind(t, ("array",)):
+                jobs.append((pid, "c11", label, t, dict(variant=0, dim=0), dict(pls[i % 2], misuse="empty_shape")))
         elif pid == "C19":
             # reference-free structs and one-dimensional arrays
             if tg.has_ref(t) or not (t[0] == "struct" or (t[0] == "array" and len(t[2]) == 1)):
